@@ -49,6 +49,9 @@ func update(ctx context.Context, p *Pather, dc daemon.Connector, dstIAs []addr.I
 		if dstIA.IsWildcard() {
 			panic("unexpected destination IA: wildcard.")
 		}
+		if _, ok := paths[dstIA]; ok {
+			continue // several servers or peers in the same AS
+		}
 		ps, err := dc.Paths(ctx, dstIA, localIA, daemon.PathReqFlags{Refresh: true})
 		if err != nil {
 			p.log.LogAttrs(ctx, slog.LevelInfo,
